@@ -16,6 +16,10 @@ def parse_stream(s):
         if not tok or tok == '|':
             break
         m = ITEM.match(tok)
+        if m and m.group(2) in ('BADSPAN', 'BADSLICE'):
+            # the runner's refusal to slice (span outside the source / not on char boundaries / slice differs) has the shape of an item
+            marker = tok
+            break
         if m:
             items.append(('err' if m.group(1) else 'ok', m.group(2), int(m.group(3)), int(m.group(4))))
             continue
@@ -837,8 +841,8 @@ def check_c05(tier, seed, log=print):
             ln_ = len(bytes.fromhex(hx if hx != '-' else ''))
             items, final, marker = parse_stream(v)
             msg = None
-            if (marker or '').startswith('BADSPAN'):
-                msg = 'span() outside the source: %s (source length %d)' % (marker, ln_)
+            if (marker or '').startswith(('BADSPAN', 'BADSLICE')):
+                msg = 'span() outside the source or inside a code point (slice() / remainder() would read out of bounds, or panic in the forbid_unsafe build): %s (source length %d)' % (marker, ln_)
             else:
                 for (k, nm, a, b) in items:
                     if b > ln_ or a > b:
